@@ -47,10 +47,16 @@ Theorem C14_oracle_sound : forall c,
   check_C14 c = true <->
   match c with
   | CReader tr failed => reader_orderb false false tr = true /\ failed = false
+  | CMount tr failed => reader_freshb true tr = true /\ failed = false
   | CWriter tr n => writer_orderb false tr = true /\ n = 0
   | CWriterSem v0 tr => wfb v0 tr = true
   end.
 Proof. exact check_C14_spec. Qed.
+
+(* mount-like readers: between a snapshot listing and a later use of repository data the index is listed *)
+Theorem C14_reader_fresh_between : forall l1 f l2 r,
+  reader_freshb f (l1 ++ RListSnap :: l2 ++ RUse :: r) = true -> In RListIdx l2.
+Proof. exact reader_fresh_between. Qed.
 
 (* writer streams accepted by the oracle (decoded real uploads) are premises of the reader theorem *)
 Theorem C14_accepted_writers_give_reader_guarantee : forall v streams sched t1 t2,
@@ -68,3 +74,4 @@ Print Assumptions C14_no_snapshot_listing_after_index.
 Print Assumptions C14_writer_index_between_pack_and_snapshot.
 Print Assumptions C14_oracle_sound.
 Print Assumptions C14_accepted_writers_give_reader_guarantee.
+Print Assumptions C14_reader_fresh_between.
